@@ -267,6 +267,20 @@ QFlagOracle(qi, qf) == \E qm \in ActiveTree(qi, Def.root) : \E qr \in 1..NReg(qm
 P_C17 == Quiescent => \A qi \in Insts : running[qi][Def.root] =>
             \A qk \in 1..Len(Def.flags) : FlagVec(qi, Def.root)[qk] = QFlagOracle(qi, Def.flags[qk])
 
+\* ---------------------------------------------------------------- C15: copies are independent
+\* Known finding F6 (back, back11): a queued / deferred closure copied with the machine stays bound to the object it was
+\* created on; draining the copy then drives the original.  The model reproduces this (marker "xbind"); only that pattern is excused.
+QExcusedF6 == IsB /\ \E qi \in 1..QLen : obs[qi].k = "xbind"
+P_C15 == (Quiescent /\ lastcall.op \in {"pe", "enq", "drain", "drain1", "start", "stop"} /\ ~QExcusedF6) =>
+            \* no behaviour of another machine object is invoked
+            /\ \A qi \in 1..QLen : IsCb(obs[qi]) => obs[qi].i = lastcall.i
+            \* and nothing of another machine object changes
+            /\ \A qj \in Insts \ {lastcall.i} :
+                  /\ active[qj] = pre.all[1][qj] /\ mq[qj] = pre.all[2][qj] /\ dq[qj] = pre.all[3][qj]
+                  /\ pool[qj] = pre.all[4][qj] /\ hist[qj] = pre.all[5][qj] /\ running[qj] = pre.all[6][qj]
+\* reachability probe: the excused pattern (used to confirm that the finding still exists on the model)
+P_NoF6 == ~QExcusedF6
+
 \* ---------------------------------------------------------------- placeholders decided by conformance only (see DESIGN.md)
 \* position of the first deferral of payload qp
 QArrival(qi, qp) == CHOOSE qk \in 1..Len(defseq[qi]) : defseq[qi][qk].p = qp /\ \A qj \in 1..(qk-1) : defseq[qi][qj].p # qp
